@@ -19,7 +19,8 @@ Record shrink (s s' : st) : Prop := mkShrink {
   S_nlen : nlen s <= nlen s';
   S_fs : FsInv (s_be pfs s) -> FsInv (s_be pfs s') /\
          forall p i, resolve (s_be pfs s) p = Some i -> resolve (s_be pfs s') p = Some i;
-  S_paths : forall h, h < s_nexth pfs s -> hpath (s_be pfs s') h = hpath (s_be pfs s) h }.
+  S_paths : forall h, h < s_nexth pfs s -> hpath (s_be pfs s') h = hpath (s_be pfs s) h;
+  S_keys : rkeys s -> rkeys s' }.
 
 Lemma shrink_refl s : shrink s s.
 Proof. constructor; auto. Qed.
@@ -36,6 +37,7 @@ Proof.
   - pose proof (S_nlen _ _ X). pose proof (S_nlen _ _ Y). lia.
   - intros H. destruct (S_fs _ _ X H) as (H1 & W1). destruct (S_fs _ _ Y H1) as (H2 & W2). split; auto.
   - intros h Hh. rewrite (S_paths _ _ Y) by (pose proof (S_nexth _ _ X); lia). apply X. exact Hh.
+  - intros K. apply (S_keys _ _ Y). apply (S_keys _ _ X). exact K.
 Qed.
 
 Lemma core_fields x y : core x = core y ->
@@ -75,6 +77,9 @@ Proof.
   - intros r Hr. rewrite L in Hr. destruct (CF r) as (_ & -> & _). pose proof (G_nbound _ _ G r Hr). pose proof (S_nlen _ _ X). lia.
   - intros r o Hr E. rewrite L in Hr. pose proof (core_xmode _ _ (S_core _ _ X r)) as XM. unfold xmode in XM.
     destruct (CF r) as (_ & _ & _ & Ex). rewrite Ex in E, XM. rewrite E in XM. rewrite XM. eapply (G_xmode _ _ G); eauto.
+  - intros r Hr Ep T. rewrite L in Hr. destruct (CF r) as (_ & En & Ep' & _). rewrite En. rewrite Ep' in Ep.
+    apply (G_root _ _ G); auto. apply TR; auto.
+  - apply (S_keys _ _ X). apply G.
   - rewrite L. apply G.
 Qed.
 
@@ -89,9 +94,10 @@ Lemma shrink_simple s s' :
   p_entries (s_be pfs s') = p_entries (s_be pfs s) -> p_dirs (s_be pfs s') = p_dirs (s_be pfs s) ->
   p_nextino (s_be pfs s') = p_nextino (s_be pfs s) ->
   (forall h, h < s_nexth pfs s -> hpath (s_be pfs s') h = hpath (s_be pfs s) h) ->
+  (rkeys s -> rkeys s') ->
   shrink s s'.
 Proof.
-  intros L Cq Lv D Nn Nl Nh E Dd Ni P.
+  intros L Cq Lv D Nn Nl Nh E Dd Ni P Kk.
   assert (CH : forall n x, nch s' n x = nch s n x) by (intros; unfold nch; rewrite Nn; reflexivity).
   assert (EN : forall d x, entry (s_be pfs s') d x = entry (s_be pfs s) d x) by (intros; unfold entry; rewrite E; reflexivity).
   constructor; auto; [| lia |].
@@ -135,6 +141,7 @@ Proof.
       * unfold nlen. rewrite N. exact Ps.
     + intros p n. unfold node_at. rewrite (walk_eq _ _ CH). auto.
   - unfold nlen. rewrite N. lia.
+  - intros K n. rewrite GN. apply K.
 Qed.
 
 Lemma bcall_be c (s : st) :
@@ -195,14 +202,16 @@ Proof.
 Qed.
 
 Lemma sh_set_node_regs n x (s : st) :
-  pn_nodes x = pn_nodes (gnode s n) -> pn_deleted x = pn_deleted (gnode s n) -> shrink s (set_node pfs n x s).
+  pn_nodes x = pn_nodes (gnode s n) -> pn_deleted x = pn_deleted (gnode s n) ->
+  (pkeys (gnode s n) -> pkeys x) -> shrink s (set_node pfs n x s).
 Proof.
-  intros E D. apply shrink_simple; try reflexivity; auto.
+  intros E D Kx. apply shrink_simple; try reflexivity; auto.
   - intros m. rewrite gnode_set_node. destruct ((m =? n) && (n <? nlen s)) eqn:X; auto.
     apply andb_prop in X. destruct X as (X & _). apply Nat.eqb_eq in X. subst. exact D.
   - intros m. rewrite gnode_set_node. destruct ((m =? n) && (n <? nlen s)) eqn:X; auto.
     apply andb_prop in X. destruct X as (X & _). apply Nat.eqb_eq in X. subst. exact E.
   - unfold nlen, set_node. cbn. apply upd_length.
+  - intros K m. rewrite gnode_set_node. destruct ((m =? n) && (n <? nlen s)) eqn:X; auto.
 Qed.
 
 Lemma sh_set_panic (s : st) : shrink s (set_panic pfs s). Proof. apply sh_meta; reflexivity || auto. Qed.
@@ -214,11 +223,16 @@ Lemma sh_take_handle (s : st) : shrink s (take_handle pfs s). Proof. apply sh_me
 Lemma sh_remove_child n r (s : st) : shrink s (remove_child pfs n r s).
 Proof.
   unfold remove_child. destruct (alookup _ _ _); [|apply shrink_refl].
-  destruct (alookup _ _ _); [apply sh_set_node_regs; reflexivity | apply sh_set_panic].
+  destruct (alookup Nat.eqb n0 _) as [m|]; [|apply sh_set_panic].
+  apply sh_set_node_regs; try reflexivity. intros K. apply pkeys_with_refs; auto. destruct K as (K & _).
+  destruct (remove_nat r m); [apply (gadel_nodup Nat.eqb Nat.eqb_spec) | apply (gaset_nodup Nat.eqb Nat.eqb_spec)]; exact K.
 Qed.
 
 Lemma sh_add_child n r nm (s : st) : shrink s (add_child pfs n r nm s).
-Proof. unfold add_child. destruct (alookup _ _ _); [apply sh_set_panic | apply sh_set_node_regs; reflexivity]. Qed.
+Proof.
+  unfold add_child. destruct (alookup _ _ _); [apply sh_set_panic|]. apply sh_set_node_regs; try reflexivity.
+  intros K. apply pkeys_with_refs; auto. apply (gaset_nodup Nat.eqb Nat.eqb_spec). apply K.
+Qed.
 
 Lemma sh_decref fuel : forall r (s : st), shrink s (snd (decref pfs pfs_step fuel r s)).
 Proof.
